@@ -111,6 +111,23 @@ func endsWithUniversalMatch(re *syntax.Regexp) bool {
 	return false
 }
 
+// isGreedyDotAllStar reports whether re is a greedy (?s:.)*, unwrapping captures.
+func isGreedyDotAllStar(re *syntax.Regexp) bool {
+	for re != nil && re.Op == syntax.OpCapture && len(re.Sub) == 1 {
+		re = re.Sub[0]
+	}
+	return re != nil && re.Op == syntax.OpStar && re.Flags&syntax.NonGreedy == 0 &&
+		len(re.Sub) == 1 && re.Sub[0].Op == syntax.OpAnyChar
+}
+
+// lastElement returns the last element of a concatenation (re itself otherwise).
+func lastElement(re *syntax.Regexp) *syntax.Regexp {
+	for re != nil && (re.Op == syntax.OpConcat || re.Op == syntax.OpCapture) && len(re.Sub) > 0 {
+		re = re.Sub[len(re.Sub)-1]
+	}
+	return re
+}
+
 // ErrNoInnerLiterals indicates that no inner literals could be extracted for ReverseInner strategy.
 // This is not a fatal error - it just means ReverseInner optimization cannot be used.
 var ErrNoInnerLiterals = errors.New("no inner literals available for ReverseInner strategy")
@@ -154,6 +171,7 @@ type ReverseInnerSearcher struct {
 	universalPrefix bool // True if prefix is .* (matches everything from start)
 	universalSuffix bool // True if suffix ends with .* (matches everything to end)
 	startAnchored   bool // True if prefix only contains start anchors (^, ^+, etc.)
+	wholeInput      bool // True if a match always spans the whole remaining input: (?s:.)*literal(?s:.)*
 	fwdCachePool    sync.Pool
 	revCachePool    sync.Pool
 }
@@ -266,6 +284,11 @@ func NewReverseInnerSearcher(
 	universalSuffix := endsWithUniversalMatch(innerInfo.SuffixAST)
 	// Check if prefix is only start anchors (^, ^+, etc.) - trivially matches at position 0
 	startAnchored := isStartAnchorOnly(innerInfo.PrefixAST)
+	// The "match is everything" shortcut of Find/FindIndicesAt is exact only when
+	// both wildcards are greedy (?s:.)*: `.` without the s flag stops at a
+	// newline, .+ needs a character and a lazy star prefers to consume nothing.
+	wholeInput := universalPrefix && universalSuffix &&
+		isGreedyDotAllStar(innerInfo.PrefixAST) && isGreedyDotAllStar(lastElement(innerInfo.SuffixAST))
 
 	s := &ReverseInnerSearcher{
 		forwardNFA:      suffixNFA,
@@ -278,6 +301,7 @@ func NewReverseInnerSearcher(
 		universalPrefix: universalPrefix,
 		universalSuffix: universalSuffix,
 		startAnchored:   startAnchored,
+		wholeInput:      wholeInput,
 	}
 	s.fwdCachePool = sync.Pool{
 		New: func() any { return s.forwardDFA.NewCache() },
@@ -332,7 +356,7 @@ func (s *ReverseInnerSearcher) Find(haystack []byte) *Match {
 	//   - Match end is ALWAYS len(haystack) (because .* matches any suffix to end)
 	// We can skip expensive DFA scans and just verify with fast IsMatch.
 	// This reduces Find from O(n) DFA scan to O(1) for common patterns!
-	if s.universalPrefix && s.universalSuffix {
+	if s.wholeInput {
 		if s.IsMatch(haystack) {
 			return NewMatch(0, len(haystack), haystack)
 		}
@@ -534,7 +558,7 @@ func (s *ReverseInnerSearcher) findIndicesAtImpl(haystack []byte, at int, fwdCac
 
 	// UNIVERSAL MATCH OPTIMIZATION:
 	// For patterns like `.*connection.*` where both prefix and suffix are universal (.*)
-	if s.universalPrefix && s.universalSuffix {
+	if s.wholeInput {
 		// Just check if there's an inner literal anywhere from 'at'
 		pos := s.prefilter.Find(haystack, at)
 		if pos >= 0 {
